@@ -1,6 +1,11 @@
 import Infretis.Model.Proto
 import Infretis.Model.Store
+import Infretis.Model.StorePath
+import Infretis.Model.StoreText
+import Infretis.Model.StoreMove
+import Infretis.Model.StoreRestart
 open Infretis Infretis.Proto Infretis.Store
+open Infretis.StoreText (Str FIn FVal TFrame LFrameT StoredT storeT loadPathT loadStoredT round6 hdrOrder hdrEnergy hdrTraj)
 
 /-! Line protocol of the C14 driver.
 
@@ -9,7 +14,27 @@ open Infretis Infretis.Proto Infretis.Store
   load  <list hexstr files> <file> <file> <file>     file = "-" (absent) or <nlines> { <ntoks> tok* }*
       tok = h | w<hex> | i<int> | f<int> | n
       → "<loaded>"
-  hist  <n> <delOld> <delAll> <a|r variant> <list keep-ext> <ninit> { <pn> <list name> }* <nops> { R <pnOld> <list name> <list name> | F | S <pn> <name> }*
+  storeP <maxlen|-> <deflim|-> <p|a> <step> <list hexstr move-words> <nframes> { frame as in store }*
+      the Path-object model: PathStorage.output of a path with that maxlen, then load_path under the default
+      limit `deflim` with the frame loop as it is (p: phasepoints.append) or through Path.append (a)
+      → "T <lines> | O <lines> | E <lines> | A <names> | M <maxlen|-> <length of the returned path> | L <maxlen|-> <loaded>"
+  loadP <deflim|-> <p|a> <list hexstr files> <file> <file> <file>   → "<maxlen|-> <loaded>"
+  storeT <maxlen|-> <deflim|-> <p|a> <step> <hex str(generated)> <nframes> { <hex dir> <hex base> <idx|-> <velrev 0|1> <list fin> <fin|-> <fin|-> }*
+      fin = n (NaN) | <+|-><num>/<den> (sign bit and exact magnitude of the float)
+      the TEXT-level model: → "T <hex text> | O <hex text> | E <hex text> | A <hex names> | M <maxlen|-> <length> | L <maxlen|-> <loadedT>"
+  loadT <deflim|-> <p|a> <list hexstr files> <hex text|!> <hex text|!> <hex text|!>    ("!" = the file does not exist)
+      → "<maxlen|-> <loadedT>";   a loaded float is shown as sign and magnitude ×10⁶ ("+1500000", "-0") or "nan"
+  round6 <num> <den> → the magnitude '{:.6f}' prints, ×10⁶
+  hdr → the three header lines (order, energy, traj) in hex
+  move <list hexstr keep-ext> <hex target dir> <maxlen|-> <nfiles> { <hex dir> <hex name> <content> }* <nframes> { <hex dir> <hex base> }*
+      PathStorage._move_path on the file-system model
+      → "<ok|err:…> | <maxlen|-> <length of the returned path> | <hex dir>/<hex name>=<content> …"
+  e2e <list hexstr keep-ext> <hex target dir> <maxlen|-> <deflim|-> <step> <list hexstr move-words> <nfiles> { <hex dir> <hex name> <content> }* <nframes> { frame as in store }*
+      the end-to-end function outputThenLoad → "<maxlen|-> <loaded>" or the error kind
+  lpfd <deflim|-> <p|a> <maxlength|-> <restarted 0|1> <list nat active> <narchives> { <pn> <list hexstr files> <file> <file> <file> }*
+      load_paths_from_disk → "<pn>:<status>:<maxlen|->:<loaded> ; …" or the error kind
+  hist  <n> <delOld> <delAll> <a|r variant> <list keep-ext> <ninit> { <pn> <list name> }* <nops> { R <pnOld> <list name> <list name> | F | S <pn> <name> | X }*
+      (X = a restart between two calls: new REPEX_state from restart.toml, paths re-read, pn_olds forgotten)
       → one state per op, separated by " | "
 -/
 
@@ -90,18 +115,19 @@ def takeInit : Nat → List String → Option (List (Nat × List String) × List
     | _, _ => none
   | _, _ => none
 
-def takeOps : Nat → List String → Option (List Op × List String)
+def takeOps : Nat → List String → Option (List OpR × List String)
   | 0, rest => some ([], rest)
-  | k + 1, "F" :: rest => (takeOps k rest).map (fun (os, r) => (Op.finish :: os, r))
+  | k + 1, "F" :: rest => (takeOps k rest).map (fun (os, r) => (OpR.op Op.finish :: os, r))
+  | k + 1, "X" :: rest => (takeOps k rest).map (fun (os, r) => (OpR.restart :: os, r))
   | k + 1, "S" :: p :: nm :: rest =>
     match parseNat? p with
-    | some p => (takeOps k rest).map (fun (os, r) => (Op.stale p nm :: os, r))
+    | some p => (takeOps k rest).map (fun (os, r) => (OpR.op (Op.stale p nm) :: os, r))
     | none => none
   | k + 1, "R" :: p :: rest =>
     match parseNat? p, takeList some' rest with
     | some p, some (files, rest) =>
       match takeList some' rest with
-      | some (kept, rest) => (takeOps k rest).map (fun (os, r) => (Op.replace p files kept :: os, r))
+      | some (kept, rest) => (takeOps k rest).map (fun (os, r) => (OpR.op (Op.replace p files kept) :: os, r))
       | none => none
     | _, _ => none
   | _, _ => none
@@ -124,15 +150,220 @@ def showSt (s : St) (e : Option Err) : String :=
   s!"{es} live:{showNats s.live} olds:{showNats (s.pnOlds.map (·.1))} restart:{showNats s.restart} disk:{",".intercalate ((s.disk.map showFile) ++ (s.dirs.map showDir)).eraseDups}"
 
 /-- states after each op; stops after the first error -/
-def trace : St → List Op → List String
+def trace : St → List OpR → List String
   | _, [] => []
   | s, op :: ops =>
-    match step s op with
+    match stepR s op with
     | (s', none) => showSt s' none :: trace s' ops
     | (s', some e) => [showSt s' (some e)]
 
+def showOInt : Option Int → String
+  | some i => toString i
+  | none => "-"
+
+def showLoadedPath : Except Err (PathObj LFrame) → String
+  | .ok p => showOInt p.maxlen ++ " " ++ showLoaded (.ok p.pts)
+  | .error e => showErr e
+
+def fillOf (s : String) : Fill := if s = "a" then .viaAppend else .push
+
+def hexL (l : Str) : String := hexStr (String.ofList l)
+
+def parseFin (s : String) : Option FIn :=
+  if s = "n" then some .nan
+  else
+    match s.toList with
+    | sg :: r =>
+      match (String.ofList r).splitOn "/" with
+      | [a, b] =>
+        match parseNat? a, parseNat? b with
+        | some n, some d => if sg = '+' then some (.num false n d) else if sg = '-' then some (.num true n d) else none
+        | _, _ => none
+      | _ => none
+    | [] => none
+
+def optFin (s : String) : Option (Option FIn) :=
+  if s = "-" then some none else (parseFin s).map some
+
+def unhexL (s : String) : Option Str := (unhexStr s).map String.toList
+
+def takeTFrames : Nat → List String → Option (List TFrame × List String)
+  | 0, rest => some ([], rest)
+  | k + 1, d :: b :: ix :: vr :: rest =>
+    match unhexL d, unhexL b, optInt ix, takeList parseFin rest with
+    | some d, some b, some ix, some (ord, vp :: ek :: rest) =>
+      match optFin vp, optFin ek, takeTFrames k rest with
+      | some vp, some ek, some (fs, rest) =>
+        some ({ dir := d, base := b, idx := ix, velRev := vr = "1", order := ord, vpot := vp, ekin := ek } :: fs, rest)
+      | _, _, _ => none
+    | _, _, _, _ => none
+  | _, _ => none
+
+def showFVal : FVal → String
+  | .dec d => (if d.neg then "-" else "+") ++ toString d.mag
+  | .nan => "nan"
+
+def showOFVal : Option FVal → String
+  | some x => showFVal x
+  | none => "-"
+
+def showLFrameT (f : LFrameT) : String :=
+  s!"{hexL f.base},{f.idx},{if f.velRev then 1 else 0},{":".intercalate (f.order.map showFVal)},{showOFVal f.vpot},{showOFVal f.ekin}"
+
+def showLoadedT : Except Err (PathObj LFrameT) → String
+  | .ok p => showOInt p.maxlen ++ " " ++ " ".intercalate (toString p.pts.length :: p.pts.map showLFrameT)
+  | .error e => showErr e
+
+def optText (s : String) : Option (Option Str) :=
+  if s = "!" then some none else (unhexL s).map some
+
+def takeFsFiles : Nat → List String → Option (FS × List String)
+  | 0, rest => some ([], rest)
+  | k + 1, d :: n :: c :: rest =>
+    match unhexStr d, unhexStr n, parseNat? c, takeFsFiles k rest with
+    | some d, some n, some c, some (fs, rest) => some (((d, n), c) :: fs, rest)
+    | _, _, _, _ => none
+  | _, _ => none
+
+def takeRefs : Nat → List String → Option (List Frame × List String)
+  | 0, rest => some ([], rest)
+  | k + 1, d :: b :: rest =>
+    match unhexStr d, unhexStr b, takeRefs k rest with
+    | some d, some b, some (fs, rest) =>
+      some ({ dir := d, base := b, idx := none, velRev := false, order := [], vpot := none, ekin := none } :: fs, rest)
+    | _, _, _ => none
+  | _, _ => none
+
+def showFs (fs : FS) : String :=
+  " ".intercalate (fs.map (fun e => s!"{hexStr e.1.1}/{hexStr e.1.2}={e.2}"))
+
+def takeArchives : Nat → List String → Option (List (Nat × Archive) × List String)
+  | 0, rest => some ([], rest)
+  | k + 1, pn :: rest =>
+    match parseNat? pn, takeList unhexStr rest with
+    | some pn, some (files, rest) =>
+      match takeFile rest with
+      | some (t, rest) =>
+        match takeFile rest with
+        | some (o, rest) =>
+          match takeFile rest with
+          | some (e, rest) =>
+            match takeArchives k rest with
+            | some (as, rest) => some ((pn, { traj := t, order := o, energy := e, files := files }) :: as, rest)
+            | none => none
+          | none => none
+        | none => none
+      | none => none
+    | _, _ => none
+  | _, _ => none
+
+def diskOf (as : List (Nat × Archive)) (pn : Nat) : Archive :=
+  match lookup pn as with
+  | some a => a
+  | none => { traj := none, order := none, energy := none, files := [] }
+
+def showLoadedPaths : Except Err (List LoadedPath) → String
+  | .ok ps => " ; ".intercalate (ps.map (fun l => s!"{l.number}:{l.status}:{showOInt l.path.maxlen}:{showLoaded (.ok l.path.pts)}"))
+  | .error e => showErr e
+
 def handle (toks : List String) : String :=
   match toks with
+  | "e2e" :: rest =>
+    match takeList unhexStr rest with
+    | some (keep, tg :: ml :: dl :: st :: rest) =>
+      match unhexStr tg, optInt ml, optInt dl, parseNat? st, takeList unhexStr rest with
+      | some tg, some ml, some dl, some st, some (mv, nf :: rest) =>
+        match parseNat? nf with
+        | some nf =>
+          match takeFsFiles nf rest with
+          | some (fs, nr :: rest) =>
+            match parseNat? nr with
+            | some nr =>
+              match takeFrames nr rest with
+              | some (frames, []) => showLoadedPath (outputThenLoad keep tg st mv { maxlen := ml, pts := frames } fs dl)
+              | _ => "bad-op"
+            | none => "bad-op"
+          | _ => "bad-op"
+        | none => "bad-op"
+      | _, _, _, _, _ => "bad-op"
+    | _ => "bad-op"
+  | "lpfd" :: dl :: fl :: ml :: rs :: rest =>
+    match optInt dl, optInt ml, takeList parseNat? rest with
+    | some dl, some ml, some (active, na :: rest) =>
+      match parseNat? na with
+      | some na =>
+        match takeArchives na rest with
+        | some (as, []) => showLoadedPaths (loadPathsFromDisk (fillOf fl) dl ml (rs = "1") (diskOf as) active)
+        | _ => "bad-op"
+      | none => "bad-op"
+    | _, _, _ => "bad-op"
+  | "move" :: rest =>
+    match takeList unhexStr rest with
+    | some (keep, tg :: ml :: nf :: rest) =>
+      match unhexStr tg, optInt ml, parseNat? nf with
+      | some tg, some ml, some nf =>
+        match takeFsFiles nf rest with
+        | some (fs, nr :: rest) =>
+          match parseNat? nr with
+          | some nr =>
+            match takeRefs nr rest with
+            | some (frames, []) =>
+              let r := movePath keep tg { maxlen := ml, pts := frames } fs
+              let es := match r.2.2 with | none => "ok" | some e => showErr e
+              s!"{es} | {showOInt r.2.1.maxlen} {r.2.1.pts.length} | {showFs r.1}"
+            | _ => "bad-op"
+          | none => "bad-op"
+        | _ => "bad-op"
+      | _, _, _ => "bad-op"
+    | _ => "bad-op"
+  | "storeT" :: ml :: dl :: fl :: st :: gen :: nf :: rest =>
+    match optInt ml, optInt dl, parseNat? st, unhexL gen, parseNat? nf with
+    | some ml, some dl, some st, some gen, some nf =>
+      match takeTFrames nf rest with
+      | some (fs, []) =>
+        let r := storeT st gen { maxlen := ml, pts := fs }
+        let s := r.1
+        s!"T {hexL s.traj} | O {hexL s.order} | E {hexL s.energy} | A {" ".intercalate (s.accepted.map hexL)} | M {showOInt r.2.maxlen} {r.2.pts.length} | L {showLoadedT (loadStoredT (fillOf fl) dl s)}"
+      | _ => "bad-op"
+    | _, _, _, _, _ => "bad-op"
+  | "loadT" :: dl :: fl :: rest =>
+    match optInt dl, takeList unhexL rest with
+    | some dl, some (files, [t, o, e]) =>
+      match optText t, optText o, optText e with
+      | some t, some o, some e => showLoadedT (loadPathT (fillOf fl) dl t o e files)
+      | _, _, _ => "bad-op"
+    | _, _ => "bad-op"
+  | ["round6", n, d] =>
+    match parseNat? n, parseNat? d with
+    | some n, some d => toString (round6 n d)
+    | _, _ => "bad-op"
+  | ["hdr"] => s!"{hexL hdrOrder} {hexL hdrEnergy} {hexL hdrTraj}"
+  | "storeP" :: ml :: dl :: fl :: st :: rest =>
+    match optInt ml, optInt dl, parseNat? st, takeList unhexStr rest with
+    | some ml, some dl, some st, some (mv, nf :: rest) =>
+      match parseNat? nf with
+      | some nf =>
+        match takeFrames nf rest with
+        | some (fs, []) =>
+          let r := storeObj st mv { maxlen := ml, pts := fs }
+          let s := r.1
+          s!"T {showLines s.traj} | O {showLines s.order} | E {showLines s.energy} | A {" ".intercalate s.accepted} | M {showOInt r.2.maxlen} {r.2.pts.length} | L {showLoadedPath (loadStoredPath (fillOf fl) dl s)}"
+        | _ => "bad-op"
+      | none => "bad-op"
+    | _, _, _, _ => "bad-op"
+  | "loadP" :: dl :: fl :: rest =>
+    match optInt dl, takeList unhexStr rest with
+    | some dl, some (files, rest) =>
+      match takeFile rest with
+      | some (t, rest) =>
+        match takeFile rest with
+        | some (o, rest) =>
+          match takeFile rest with
+          | some (e, []) => showLoadedPath (loadPath (fillOf fl) dl t o e files)
+          | _ => "bad-op"
+        | none => "bad-op"
+      | none => "bad-op"
+    | _, _ => "bad-op"
   | "store" :: st :: rest =>
     match parseNat? st, takeList unhexStr rest with
     | some st, some (mv, nf :: rest) =>
